@@ -161,11 +161,27 @@ func genC02(r *Rand, tier string, ord int) *Trial {
 	if tier == "thorough" && !many && r.P(0.05) {
 		sp.L = r.Range(51, 400) // deeper bound on the reference length in the thorough tier
 	}
+	long := !many && r.P(0.002)
+	if long {
+		sp.Ins, sp.Queries, kind = 0.15, r.Range(1, 3), "generated-long-insertion"
+	}
 	sc := genSam(r, sp)
+	if long {
+		// insertions of about 2^8, 2^12 or 2^16 bases (one, or two that add up): gen.go, scale
+		k := uint(r.PickInt(8, 12, 16, 16, 16))
+		n := (1 << k) + r.Range(-2, 8)
+		if r.P(0.3) {
+			inflateInsertion(r, sc, n*4/7)
+			n = n*3/7 + 5
+		}
+		if !inflateInsertion(r, sc, n) {
+			kind = "generated"
+		}
+	}
 	o := Opts{Wrap: -1, Start: -1, End: -1, Threads: 1, OutDir: r.Pick("stdout", "stdout", "pairs")}
 	o.OmitIns = r.P(0.3)
 	o.OmitRef = r.P(0.25)
-	if r.P(0.35) {
+	if r.P(0.35) || long && r.P(0.7) {
 		o.Start, o.End = genWindow(r, sp.L)
 		switch r.Intn(4) {
 		case 0:
@@ -176,9 +192,15 @@ func genC02(r *Rand, tier string, ord int) *Trial {
 	}
 	if r.P(0.3) {
 		o.Wrap = r.PickInt(1, 3, 7, 60)
+		if long && o.Wrap < 7 {
+			o.Wrap = 60
+		}
 	}
 	t := &Trial{Kind: kind, Case: Case{Cmd: "topa", Files: map[string]string{"sam": sc.Text(), "ref": ">ref\n" + sc.RefSeq + "\n"}, Opts: o}, Params: map[string]string{}}
 	t.Runs = genRunCfgs(r, 5) // 0..2: model comparison; 3,4: the toMultiAlign --pad relation (with --skip-insertions)
+	if long {
+		wideRuns(t.Runs)
+	}
 	return t
 }
 
